@@ -494,7 +494,9 @@ func (t TypeHandle) HasType(c ast.Constant) bool {
 		return e == nil && err == nil
 	case StructType.Symbol:
 		if c.IsStructNil() {
-			return len(tpe.Args) == 0
+			// The empty struct has no fields: it is a member when no field is required.
+			requiredArgs, err := StructTypeRequiredArgs(tpe)
+			return err == nil && len(requiredArgs) == 0
 		}
 		fieldTpeMap := make(map[ast.Constant]TypeHandle)
 		requiredArgs, err := StructTypeRequiredArgs(tpe)
